@@ -45,6 +45,10 @@ impl Sweep {
             sweep_radials.push(radial);
         }
 
+        if let Some(elevation_number) = sweep_elevation_number {
+            sweeps.push(Sweep::new(elevation_number, sweep_radials));
+        }
+
         sweeps
     }
 
